@@ -100,6 +100,9 @@ class SyncWorker(base.Worker):
                         continue
 
                     try:
+                        # the time spent in select() and in the previous
+                        # listener's request must not count against this one
+                        self.notify()
                         self.accept(listener)
                     except OSError as e:
                         if e.errno not in (errno.EAGAIN, errno.ECONNABORTED,
